@@ -82,7 +82,8 @@ def gen_world(rng, nmin=3, nmax=20, na_rate=0.0, na_cols=(), ordered_prob=0.5, f
     num("x", -3, 6)
     num("z", 1, 5)
     # a column whose training mean is exactly zero (memoised parameters that are 0 must stay memoised)
-    half = [rng.randint(1, 4) for _ in range(n // 2)]
+    m = n // 2
+    half = rng.sample(range(1, 5), min(4, m)) + [rng.randint(1, 4) for _ in range(max(0, m - 4))]   # distinct as far as possible
     xc = half + [-v for v in half] + ([0] if n % 2 else [])
     rng.shuffle(xc)
     data["xc"] = np.array(xc, dtype=np.int64)
